@@ -45,7 +45,12 @@ ENDERS = ("enter", "ctrl-c", "ctrl-x", "alt-a", "f1", "f2", "ctrl-t")
 CHAINS = ["toggle+up", "up+toggle", "toggle+down+toggle", "if-query-empty(toggle)+up", "if-query-empty(abort)+accept",
           "if-query-not-empty(abort)+accept", "if-non-matched(abort)+accept", "if-query-empty(up)+up+accept",
           "if-query-not-empty(toggle)+down", "select-all+accept", "up:2", "up+if-non-matched(unix-line-discard)",
-          "toggle+if-query-not-empty(unix-line-discard)", "toggle-all", "accept(xx)", "append-and-select", "append-and-select"]
+          "toggle+if-query-not-empty(unix-line-discard)", "toggle-all", "accept(xx)", "append-and-select", "append-and-select",
+          # execute-silent: the command the Model hands to $SHELL (recorded by the stand-in shell, not run) is the C07 expansion of the
+          # template in the context of the live list, selection and query
+          "execute-silent(echo {n} {})", "execute-silent(echo {+n} -- {+})+down", "execute-silent(echo {q} \\{} {n})",
+          "up+execute-silent(echo {+n})", "toggle+execute-silent(echo {+n} {+})", "execute-silent(echo {+n})",
+          "execute-silent(printf '%s' {q}{n})+toggle+up+execute-silent(echo {+})"]
 
 
 def gen(rng, tier, n):
@@ -70,6 +75,28 @@ def gen(rng, tier, n):
             keys = ["z", "z", "ctrl-u"] + (["ctrl-p"] if rng.random() < 0.3 else []) + ["ctrl-t", "enter", "ctrl-c"]
             yield "K|%s|%s|%s" % (",".join(opts), ",".join(enc(i) for i in items), " ".join(enc(k) for k in keys))
             continue
+        if rng.random() < 0.06:
+            # directed: execute-silent with a selection that does not contain the cursor item, templates whose only reference to
+            # items is {+n} / {+} / {n}; filtered lists (index of the line != row)
+            tmpl = rng.choice(["echo {+n}", "echo {q} {+n}", "echo {+}", "echo {n} {+n} {}", "echo {+n} {+}", "echo \\{+n} {+n}"])
+            opts = ["multi", "bind=" + enc("f2:execute-silent(%s)" % tmpl)] + (["q=" + enc(rng.choice(["b", "a", "c"]))] if rng.random() < 0.5 else [])
+            items = [rng.choice(WORDS) for _ in range(rng.choice([3, 5, 8]))]
+            # (btab = toggle+up selects and moves on; tab = toggle+down stays on the bottom row and would toggle the same item again)
+            keys = [rng.choice(["btab", "btab", "btab", "ctrl-p", "tab"]) for _ in range(rng.choice([1, 2, 3]))] + ["f2"]
+            if rng.random() < 0.4:
+                keys += [rng.choice(["ctrl-p", "tab", "b"]), "f2"]
+            keys += ["enter", "ctrl-c"]
+            yield "K|%s|%s|%s" % (",".join(opts), ",".join(enc(i) for i in items), " ".join(enc(x) for x in keys))
+            continue
+        if rng.random() < 0.05:
+            # directed: one key both bound (--bind) and expected (--expect): pressing it ends the session with an accept naming it
+            k = rng.choice(["ctrl-x", "alt-a", "f1"])
+            opts = (["multi"] if rng.random() < 0.5 else []) + ["expect=" + enc(rng.choice([k, k + ",f2", "ctrl-t," + k])),
+                                                             "bind=" + enc("%s:%s" % (k, rng.choice(["up", "toggle+up", "abort", "down"])))]
+            items = [rng.choice(WORDS) for _ in range(rng.choice([2, 3, 5]))]
+            keys = (["ctrl-p"] if rng.random() < 0.5 else []) + [k, "enter", "ctrl-c"]
+            yield "K|%s|%s|%s" % (",".join(opts), ",".join(enc(i) for i in items), " ".join(enc(x) for x in keys))
+            continue
         opts = ["multi"] if rng.random() < 0.6 else []
         if rng.random() < 0.4:
             opts.append("pq")
@@ -82,6 +109,8 @@ def gen(rng, tier, n):
         bound = None
         if rng.random() < 0.5:
             bound = rng.choice(["ctrl-t", "f2"])
+            if expect and rng.random() < 0.3:
+                bound = rng.choice(expect.split(","))     # the same key in --bind and in --expect: the expect meaning wins
             opts.append("bind=" + enc("%s:%s" % (bound, rng.choice(CHAINS))))
         if rng.random() < 0.2:
             opts.append("q=" + enc(rng.choice(["a", "b", "ab"])))
@@ -164,7 +193,11 @@ def run_one(case, slow=1.0):
     try:
         fcntl.ioctl(slave, termios.TIOCSWINSZ, struct.pack("HHHH", 24, 80, 0, 0))
         r, w = os.pipe()
-        env = dict(os.environ, TERM="xterm-256color", SHELL="/bin/sh")
+        # $SHELL is a stand-in that logs the command it is given instead of running it (execute-silent, see tools/logshell.sh)
+        import tempfile
+        logf = tempfile.NamedTemporaryFile(prefix="verif-exec-", suffix=".log", delete=False)
+        logf.close()
+        env = dict(os.environ, TERM="xterm-256color", SHELL=os.path.join(core.ROOT, "tools", "logshell.sh"), VERIF_EXEC_LOG=logf.name)
         env.pop("SKIM_DEFAULT_OPTIONS", None)
         proc = subprocess.Popen(args, stdin=r, stdout=subprocess.PIPE, stderr=subprocess.DEVNULL, env=env,
                                 preexec_fn=lambda: (os.setsid(), fcntl.ioctl(slave, termios.TIOCSCTTY, 0)), close_fds=False)
@@ -213,8 +246,16 @@ def run_one(case, slow=1.0):
         except subprocess.TimeoutExpired:
             proc.kill()
             out, rc = b"", "timeout"
-        return "rc=%s out=%s" % (rc, out.hex())
+        try:
+            execs = [l.strip() or "-" for l in open(logf.name).read().split("\n")[:-1]]
+        except OSError:
+            execs = ["error"]
+        return "rc=%s out=%s exec=%s" % (rc, out.hex(), ",".join(execs) or "_")
     finally:
+        try:
+            os.unlink(logf.name)
+        except (OSError, NameError):
+            pass
         for fd in (master, slave):
             try:
                 os.close(fd)
